@@ -435,7 +435,10 @@ pub fn gen_dict_session(rng: &mut Rng, kind: u8, max_len: usize, nsteps: usize, 
             4 => DStep::User(None),
             5..=6 => DStep::Map { ll: gen_perm_list(rng, d.nl()), rl: gen_perm_list(rng, d.nr()) },
             7 => {
-                if rng.chance(1, 2) {
+                if d.nl() != d.nr() && rng.chance(1, 3) {
+                    // each list is a valid permutation - of the OTHER side's ids
+                    DStep::Map { ll: gen_perm_list(rng, d.nr()), rl: gen_perm_list(rng, d.nl()) }
+                } else if rng.chance(1, 2) {
                     DStep::Map { ll: gen_bad_list(rng, d.nl()), rl: gen_perm_list(rng, d.nr()) }
                 } else {
                     DStep::Map { ll: gen_perm_list(rng, d.nl()), rl: gen_bad_list(rng, d.nr()) }
